@@ -21,7 +21,7 @@ def corr(ctx, pexpect, n, which):
     nhit = 0
     for it in range(n):
         ih, ii, st = rng.random() < 0.4, rng.random() < 0.4, rng.random() < 0.2
-        ops = L.gen_ops(rng, rng.randint(1, 7))
+        ops = L.gen_ops(rng, rng.randint(1, 7), foreign_reaper=(which == 'C09' and rng.random() < 0.3))
         try:
             obs, w = L.run_ops(pexpect, ih, ii, st, ops)
         except Exception as e:
